@@ -25,6 +25,10 @@ func ParseMetadata(rawsdp string, video *codec.VideoMeta, audio *codec.AudioMeta
 	}
 
 	for _, media := range sdp.Media {
+		if len(media.Format) == 0 {
+			// e.g. a transport other than RTP/AVP: no payload formats were parsed
+			continue
+		}
 		switch media.Type {
 		case "video":
 			video.Codec = media.Format[0].Name
